@@ -6,7 +6,10 @@
 
    ok_obj o    : o is a reachable object: variable lists / holiday sets / node keys / currency lists
                  duplicate-free (they are IndexSet / HashSet / IndexMap in the code), sizes fit a usize,
-                 a Dual2's array has rows*cols elements, enum indices in range; a NamedCal is what its
+                 one derivative per variable name and an n x n second-order array (what try_new and every
+                 operator establish; checked on loading since fix e8eeeaf), curve node keys strictly
+                 increasing (CurveDF::try_new sorts them), splines as PPSpline::new asserts (two knots or
+                 more, non-decreasing, k <= |t|, n = |t| - k), enum indices in range; a NamedCal is what its
                  own (lower-case) name denotes (true of every constructed one: C16_named_norm); an FX
                  market is what the reconstruction builds from its own quotes and first currency, i.e.
                  it is at AD order one (the saved form does not contain the matrix and the currency
@@ -29,12 +32,12 @@ Theorem C16_tree_roundtrip : forall (T : Type) (H : Num T), (forall x : T, neqb 
 Proof. exact c16_tree_roundtrip. Qed.
 
 Theorem C16_tagged : forall (T : Type) (H : Num T) (o : obj T), ok_obj o ->
-  dec_obj rebuild_named_expect rebuild_fx_expect (enc_obj o) = Ok o.
+  dec_obj rebuild_named rebuild_fx (enc_obj o) = Ok o.
 Proof. exact (fun T H o => @dec_obj_enc T H o). Qed.
 
 (* the direct entry point of each type (JSON::to_json / from_json without the tag) *)
 Theorem C16_direct : forall (T : Type) (H : Num T) (o : obj T), ok_obj o ->
-  dec_payload rebuild_named_expect rebuild_fx_expect (Z.to_nat (kind_of o)) (enc_payload o) = Ok o.
+  dec_payload rebuild_named rebuild_fx (Z.to_nat (kind_of o)) (enc_payload o) = Ok o.
 Proof. exact c16_direct. Qed.
 
 (* the two rebuilt-on-load types *)
